@@ -225,6 +225,10 @@ func (sta *State) UsedRandomCleaner() {
 }
 
 func (sta *State) registerRandom(r [32]byte) bool {
+	// r carries the client's ephemeral X25519 public key. X25519 ignores the most significant bit of
+	// the u-coordinate (RFC 7748), so a replayed packet with that bit flipped yields the same shared
+	// secret and still decrypts: the replay cache must not tell the two encodings apart
+	r[31] &= 0x7f
 	sta.usedRandomM.Lock()
 	_, used := sta.UsedRandom[r]
 	sta.UsedRandom[r] = sta.WorldState.Now().Unix()
